@@ -260,7 +260,7 @@ func Select(hasDefault bool, cases ...SelCase) SelResult {
 
 func Send[T any](ch chan<- T, v T) {
 	s := S
-	if s.aborting {
+	if s == nil || s.aborting {
 		return
 	}
 	s.doSelect([]SelCase{{c: s.shadowOf(ch), send: true, val: v}}, false, KSend)
@@ -274,7 +274,7 @@ func Recv[T any](ch <-chan T) T {
 func Recv2[T any](ch <-chan T) (T, bool) {
 	s := S
 	var z T
-	if s.aborting {
+	if s == nil || s.aborting {
 		return z, false
 	}
 	r := s.doSelect([]SelCase{{c: s.shadowOf(ch)}}, false, KRecv)
@@ -286,7 +286,7 @@ func Recv2[T any](ch <-chan T) (T, bool) {
 
 func Close[T any](ch chan T) {
 	s := S
-	if s.aborting {
+	if s == nil || s.aborting {
 		return
 	}
 	c := s.shadowOf(ch)
